@@ -263,7 +263,8 @@ def _cli_one(job):
                 fails.append(json.loads(line))
             except json.JSONDecodeError:
                 fails.append({"rule": "?", "exc_type": "unparsable-log-line", "where": "?"})
-    return {"rc": rc, "stdout": so, "stderr": se[-6000:], "failures": fails, "wall": round(time.time() - t0, 2)}
+    return {"rc": rc, "stdout": so, "stderr": se[-6000:], "failures": fails, "wall": round(time.time() - t0, 2),
+            "via_safe_check": "_safe_check_rule" in se}
 
 
 def _viols(stdout, offender_name=None):
@@ -362,7 +363,7 @@ def cli_part(chk: Check, seed: int, stream_cases, n_cli: int, sd: Path):
         if o["rc"] not in (0, 1):
             m = re.findall(r"^\s*([A-Za-z_][A-Za-z0-9_.]*(?:Error|Exception|Interrupt|Exit))\s*:", err, re.M)
             exc = m[-1].split(".")[-1] if m else "?"
-            if o["rc"] == 2 and exc in VALUE_FAMILY_NAMES and "_safe_check_rule" in err:
+            if o["rc"] == 2 and exc in VALUE_FAMILY_NAMES and o.get("via_safe_check"):
                 kv(FLAG, f"thailint {key[0]} exited 2: a ValueError-family exception raised by a rule aborted the command", {"exception": exc, "stderr_tail": err[-600:]})
             else:
                 chk.violation({"reason": f"thailint {key[0]} exited {o['rc']} (allowed: 0, 1)", "exception": exc, "stderr_tail": err[-1500:], **info})
@@ -420,10 +421,16 @@ def logic_part(chk: Check, seed: int, n_stub: int, n_detect: int, stream_cases, 
 
 
 def judge_logic(chk: Check, lines, tags, stream_results, sd: Path):
+    keep = []
     for k, (kind, c, _) in enumerate(tags):
         if kind == "detect-stream":
             res = stream_results.get(c["id"]) or {}
-            lines[k] = c11_logic.coq_detect_case(c["name"], True, c["data"], str(res.get("lang", "<no result>")))
+            if "lang" not in res:
+                continue          # the stream run of this file was killed or skipped: reported there, nothing to compare here
+            lines[k] = c11_logic.coq_detect_case(c["name"], True, c["data"], str(res["lang"]))
+        keep.append(k)
+    lines = [lines[k] for k in keep]
+    tags = [tags[k] for k in keep]
     shards, index = [], []
     per = 40
     for s in range(0, len(lines), per):
